@@ -171,12 +171,14 @@ def main(argv=None):
     for name, lem in specs.lemmas.items():
         if prop in lem.props:
             jobs.append(("lemma", name))
-    if not jobs:
+    if not jobs and not P.get("bounded_only"):
         print("ENGINE-ERROR no contract or lemma is tagged with %s" % prop)
         return 3
-    ctx = mp.get_context("fork")
-    with ctx.Pool(min(a.jobs, len(jobs)), initializer=_init) as pool:
-        units = pool.map(sx_unit, jobs, chunksize=1)
+    units = []
+    if jobs:
+        ctx = mp.get_context("fork")
+        with ctx.Pool(min(a.jobs, len(jobs)), initializer=_init) as pool:
+            units = pool.map(sx_unit, jobs, chunksize=1)
     timeout_s = P.get("timeout", 10.0) * (3 if tier == "thorough" else 1)
     solver_wall = discharge_all(units, timeout_s, max(4, a.jobs // 2), tier == "thorough")
 
@@ -384,8 +386,11 @@ def main(argv=None):
         for cl in undecided:
             print("UNDECIDED property=%s obligation=%s" % (prop, cl))
         return 2
-    if len(all_obs) + n_triv == 0:
+    if len(all_obs) + n_triv == 0 and not P.get("bounded_only"):
         print("ENGINE-ERROR zero obligations")
+        return 3
+    if P.get("bounded_only") and not (driver_result and driver_result.get("evaluations")):
+        print("ENGINE-ERROR the bounded battery did not run")
         return 3
     return 0
 
